@@ -514,3 +514,92 @@ def replay_obj(prop, e, what, extra=None):
     if extra:
         o.update(extra)
     return o
+
+
+# --------------------------------------------------------------------------- extraction cross-check inside Coq
+def _coq_name(s):
+    return "[" + "; ".join(str(ord(c)) for c in s) + "]"
+
+
+def _coq_fr(f, lo, hi):
+    return "(mkFR %s %s %s)" % (f, lo, hi)
+
+
+_KIND = {"record": "KRecord", "template_arg": "KTemplateArg", "record_field": "KRecordField", "variable": "KVariable",
+         "defset": "KDefset", "multiclass": "KMulticlass", "defm": "KDefm"}
+
+
+def coq_op(line):
+    """one H3 log line as a Gallina term of type SymbolMap.op (independent of symmap_driver.ml's parser)"""
+    x = line.split("\t")
+    k = x[0]
+    if k == "add_record":
+        return "OpAddRecord %s %s %s %s %s" % (_coq_name(x[1]), "RKClass" if x[2] == "Class" else "RKDef", _coq_fr(*x[3:6]),
+                                              "true" if x[6] == "1" else "false", x[7])
+    if k in ("add_anonymous_def", "add_anonymous_defm", "add_multiclass"):
+        c = {"add_anonymous_def": "OpAddAnonymousDef", "add_anonymous_defm": "OpAddAnonymousDefm", "add_multiclass": "OpAddMulticlass"}[k]
+        return "%s %s %s %s" % (c, _coq_name(x[1]), _coq_fr(*x[2:5]), x[5])
+    if k in ("add_template_argument", "add_variable", "add_defset"):
+        c = {"add_template_argument": "OpAddTemplateArg", "add_variable": "OpAddVariable", "add_defset": "OpAddDefset"}[k]
+        return "%s %s %s %s %s" % (c, _coq_name(x[1]), _coq_name(x[6]) if len(x) > 6 else "[]", _coq_fr(*x[2:5]), x[5])
+    if k == "add_record_field":
+        return "OpAddRecordField %s %s %s %s %s" % (_coq_name(x[1]), _coq_name(x[7]) if len(x) > 7 else "[]", _coq_fr(*x[2:5]), x[5], x[6])
+    if k == "add_defm":
+        return "OpAddDefm %s %s %s %s" % (_coq_name(x[1]), _coq_fr(*x[2:5]), "true" if x[5] == "1" else "false", x[6])
+    if k == "add_reference":
+        return "OpAddReference (%s, %s) %s" % (_KIND[x[1]], x[2], _coq_fr(*x[3:6]))
+    simple = {"record_mut": "OpRecordMut", "defset_mut": "OpDefsetMut", "multiclass_mut": "OpMulticlassMut", "defm_mut": "OpDefmMut",
+              "record.add_parent": "OpRecAddParent", "defset.add_def": "OpDefsetAddDef", "multiclass.add_parent": "OpMcAddParent",
+              "defm.add_parent": "OpDefmAddParent"}
+    if k in simple:
+        return "%s %s" % (simple[k], x[1])
+    named = {"record.add_template_arg": "OpRecAddTemplateArg", "record.add_record_field": "OpRecAddField",
+             "multiclass.add_template_arg": "OpMcAddTemplateArg"}
+    if k in named:
+        return "%s %s %s" % (named[k], _coq_name(x[1]), x[2])
+    if k == "error":
+        return "OpError %s" % _coq_fr(*x[1:4])
+    raise ValueError("unknown op line " + line)
+
+
+def coq_crosscheck(cases, tag):
+    """cases: list of (ws, real, model) with model run ok.  Evaluates, INSIDE Coq by vm_compute, the side conditions and
+    go-to-definition at a few positions of each case and demands the values the extracted OCaml model printed.
+    Returns (ok, message)."""
+    if not cases:
+        return True, "no case"
+    body = ["From Coq Require Import List NArith.", "From TG.Model Require Import Chars SymbolMap SymbolWf.",
+            "Import ListNotations.", "Open Scope N_scope.", ""]
+    for ci, (ws, real, model) in enumerate(cases):
+        fids = real["fids"]
+        toks = sorted((fids[p], lo, hi, txt) for p, ts in real["idtoks"].items() for lo, hi, txt in ts)
+        body.append("Definition toks%d : list tok := [%s]." % (ci, "; ".join("(%s, %s)" % (_coq_fr(f, lo, hi), _coq_name(t)) for f, lo, hi, t in toks)))
+        body.append("Definition ops%d : list op := [%s]." % (ci, ";\n  ".join(coq_op(l) for l in real["oplog"])))
+        body.append("Goal ops_wf toks%d ops%d = %s. Proof. vm_compute. reflexivity. Qed." % (ci, ci, "true" if model["ops_wf"] else "false"))
+        body.append("Goal ops_ids_wf ops%d = %s. Proof. vm_compute. reflexivity. Qed." % (ci, "true" if model["ops_ids_wf"] else "false"))
+        probes, expect = [], []
+        for f, runs in model["at"].items():
+            for run in runs[:12]:
+                probes.append("(%s, %s)" % (f, run["o"]))
+                d = run["def"]
+                expect.append("SOk None" if d is None else "SOk (Some %s)" % _coq_fr(*d))
+        body.append("Goal match run_ops ops%d with SOk st => map (fun fp => goto_definition st (fst fp) (snd fp)) [%s] | SErr _ => [] end = [%s]."
+                    % (ci, "; ".join(probes), "; ".join(expect)))
+        body.append("Proof. vm_compute. reflexivity. Qed.")
+        body.append("")
+    d = os.path.join(vlib.CACHE, "symmap")
+    os.makedirs(d, exist_ok=True)
+    name = "Cases_%s_%s" % (tag, vlib.sha("\n".join(body))[:10])
+    path = os.path.join(d, name + ".v")
+    open(path, "w").write("\n".join(body) + "\n")
+    rc, out = vlib.sh(["coqc", "-noglob", "-Q", "gen", "TG.Gen", "-Q", "model", "TG.Model", path], cwd=vlib.COQ, timeout=300)
+    for ext in (".v", ".vo", ".vok", ".vos", ".glob"):
+        try:
+            os.remove(os.path.join(d, name + ext))
+        except OSError:
+            pass
+        try:
+            os.remove(os.path.join(d, "." + name + ".aux"))
+        except OSError:
+            pass
+    return rc == 0, out[-800:]
